@@ -1,15 +1,14 @@
 SPECIFICATION Spec
 CONSTANTS
   Writers <- W2
-  Subs <- S0
+  Subs <- S1
   Ids <- I1
   MaxV = 6
-  Programs <- CollPrograms
-  SubKinds <- Kinds
+  Programs <- SubCollPrograms
+  SubKinds <- KindsLossy
   InitStores <- CollStores
   PublishAfterUnlock = FALSE
   CreatedRevalidated = TRUE
   SubSer = TRUE
-VIEW ViewNoHist
-INVARIANTS TypeOK CommitValid EffectOnce LoserCodes
+INVARIANT EmitSched
 CHECK_DEADLOCK FALSE
